@@ -1,9 +1,11 @@
 import I18n.Lemmas.DomainsGenerated
+import I18n.Lemmas.GettextHdrGenerated
 import I18n.Props.C15
 /-!
 # C15 — the tie by translation: the header checks REGENERATED from the source are the model
 
-`I18n.Generated.Domains` (`lib/domains.py`, by `tools/translate/domains2lean.py`) is rewritten from the repository's current source on
+`I18n.Generated.Domains` (`lib/domains.py`, by `tools/translate/domains2lean.py`) and `I18n.Generated.GettextHdr` (`lib/gettext.py`
+`parse_header`, by `gettexthdr2lean.py`) are rewritten from the repository's current source on
 every run.  The theorems below prove each regenerated function equal, for ALL inputs (and every `str.lower`), to the hand-written
 definition the theorems of `Props/C15.lean` are about, and restate the headline theorems of C15 about the regenerated definitions.
 A changed source line changes the generated definition and breaks the equality proof — no test input involved.
@@ -61,7 +63,41 @@ theorem generated_email_functions_total (lower : Str → Str) (addr : Str) (h : 
   rw [generated_is_email_in_special_domain_eq_model, generated_is_email_in_dotless_domain_eq_model, if_pos h, if_pos h]
   exact ⟨⟨_, rfl⟩, ⟨_, rfl⟩⟩
 
+/-! ## `lib.gettext.parse_header` -/
+
+/-- `parse_header(s)` as regenerated (the list of what the generator yields) = `Hdr.parseHeader s`; it raises nothing
+    (`lines[-1]`, the unpacking and the `assert` cannot fail) -/
+theorem generated_parse_header_eq_model (s : Str) : Generated.GettextHdr.parse_header s = .ok (parseHeader s) :=
+  I18n.Hdr.Gen.parse_header_eq s
+
+/-- **parse_header_lines**, of the regenerated function: one yielded value per `\n`-separated piece of the text (a final `\n`
+    terminating the last), each classified by the field grammar -/
+theorem parse_header_lines_generated (s : Str) :
+    ∃ ls, LinesOf s ls ∧ Generated.GettextHdr.parse_header s = .ok (ls.map parseLine) :=
+  ⟨headerLines s, (C15.parse_header_lines s).2, by rw [generated_parse_header_eq_model, (C15.parse_header_lines s).1]⟩
+
+/-- **parse_header_field / parse_header_stray**, of the regenerated function: a yielded `{k: v}` is a line of the field grammar
+    `k: v`, a yielded str is a line outside the grammar, unchanged -/
+theorem parse_header_items_generated (s : Str) (ys : List Line) (h : Generated.GettextHdr.parse_header s = .ok ys) :
+    ∃ ls, LinesOf s ls ∧ ys.length = ls.length ∧
+      ∀ i (hi : i < ls.length) (hy : i < ys.length),
+        (∀ k v, ys[i] = .field k v ↔ FieldLine ls[i] k v) ∧
+        (∀ t, ys[i] = .stray t ↔ (t = ls[i] ∧ ¬ ∃ k v, FieldLine ls[i] k v)) := by
+  rw [generated_parse_header_eq_model] at h
+  injection h with h
+  subst h
+  refine ⟨headerLines s, (C15.parse_header_lines s).2, by simp [parseHeader], ?_⟩
+  intro i hi hy
+  have e : (parseHeader s)[i] = parseLine (headerLines s)[i] := by simp [parseHeader]
+  rw [e]
+  exact ⟨fun k v => C15.parse_header_field _ k v, fun t => C15.parse_header_stray _ t⟩
+
 /-! Non-vacuity -/
+
+example : Generated.GettextHdr.parse_header "A: b \nstray\nX-y:\tz\n".toList =
+    .ok [.field "A".toList "b".toList, .stray "stray".toList, .field "X-y".toList "z".toList] := by
+  rw [generated_parse_header_eq_model]; decide
+
 
 example : Generated.Domains.is_email_in_special_domain id "a@x.example.com".toList = .ok true := by
   rw [generated_is_email_in_special_domain_eq_model]; decide
